@@ -15,6 +15,7 @@ pub fn run(mode: &str, args: &[&str], line: &str) -> String {
         "load" => with_str(line, |s| load(args[0], args.get(1).copied().unwrap_or("eager"), s)),
         "resolve" => with_str(line, resolve),
         "hist" => hist(args[0], line),
+        "mix" => mix(args[0], line),
         "display" => with_str(line, display),
         _ => format!("|BADMODE {mode}"),
     }
@@ -401,6 +402,44 @@ fn hist_run<I: Input>(mut p: Parser<'_, I>, pat: &str) -> String {
     }
     out.join(";")
 }
+// mixed histories: P peek, N next, L load(multi = true), l load(multi = false); one result per call, ';'-separated;
+// a load call reports "L[<events pushed, ','-separated>|OK or ERR@...]".  The run goes on after an error (a consumer that
+// keeps calling must still not be able to crash the process); at most 64 calls.
+fn mix_run<I: Input>(mut p: Parser<'_, I>, pat: &str) -> String {
+    let mut out = vec![];
+    for c in pat.chars().take(64) {
+        let r = match c {
+            'P' => match p.peek() {
+                None => "NONE".to_string(),
+                Some(Ok((e, s))) => ev(e, s),
+                Some(Err(e)) => err(&e),
+            },
+            'N' => match p.next_event() {
+                None => "NONE".to_string(),
+                Some(Ok((e, s))) => ev(&e, &s),
+                Some(Err(e)) => err(&e),
+            },
+            _ => {
+                let mut c2 = Collect(vec![]);
+                let fin = match p.load(&mut c2, c == 'L') {
+                    Ok(()) => "OK".to_string(),
+                    Err(e) => err(&e),
+                };
+                format!("{}[{}|{}]", c, c2.0.join(","), fin)
+            }
+        };
+        out.push(r);
+    }
+    out.join(";")
+}
+fn mix(backend: &str, line: &str) -> String {
+    let Some((pat, cpsline)) = line.split_once('#') else { return "|BADCASE".into() };
+    let Some(s) = decode(cpsline) else { return "|BADCASE".into() };
+    let pat = pat.to_string();
+    let backend = backend.to_string();
+    guard(move || with_parser!(backend.as_str(), s.as_str(), p => mix_run(p, &pat)))
+}
+
 fn hist(backend: &str, line: &str) -> String {
     let Some((pat, cpsline)) = line.split_once('#') else { return "|BADCASE".into() };
     let Some(s) = decode(cpsline) else { return "|BADCASE".into() };
